@@ -12,7 +12,7 @@ git -C /repo worktree add --detach "$wt" HEAD >/dev/null 2>&1 || { echo "$name v
 cleanup() { git -C /repo worktree remove --force "$wt" >/dev/null 2>&1; rm -rf "$wt" $mod.mod $mod.sum; }
 if ! git -C "$wt" apply "$patch" 2>/dev/null; then cleanup; echo "$name vs $id: PATCH DOES NOT APPLY"; exit 3; fi
 sed "s|=> /repo|=> $wt|" $snap/vmon/go.mod > $mod.mod; cp /repo/go.sum $mod.sum
-out=/verif/work/mutwt/$name
+out=/verif/work/mutwt/$name-s${VERIF_SEED:-1}
 mkdir -p $out/work $out/evidence
 ( cd $snap/vmon && go build -modfile=$mod.mod -tags verif -o $out/vmon-mut . ) ; brc=$?
 cleanup
